@@ -6,6 +6,8 @@ so reference and implementation agree to rounding regardless of summation order)
 import numpy as np
 from hypothesis import strategies as st
 
+from .core import sampled_from  # noqa: E402
+
 LEAD_NAMES = ["time", "lev", "ens"]
 DTYPES = ["float64", "float32", "int64", "int32", "bool"]
 
@@ -14,7 +16,7 @@ DTYPES = ["float64", "float32", "int64", "int32", "bool"]
 def data_spec(draw, n_elem, dtypes=DTYPES, max_lead=3, vmax=8, explicit_limit=160):
     nlead = draw(st.integers(0, max_lead))
     lead = [draw(st.integers(1, 3)) for _ in range(nlead)]
-    dtype = draw(st.sampled_from(dtypes))
+    dtype = draw(sampled_from(dtypes))
     total = int(np.prod(lead)) * n_elem if lead else n_elem
     spec = {"lead": lead, "dtype": dtype, "scale": 8 if dtype.startswith("float") else 1, "vmax": vmax}
     if total <= explicit_limit:
